@@ -27,13 +27,28 @@ def C20_full : Prop :=
       ∀ i σ', step σ i = some σ' →
         σ'.env = σ.env ∧ σ'.creates = σ.creates ∧ σ'.clears = σ.clears) ∧
     -- creator calls and clears are each caused by an observation; observations are caused by requests
-    (σ.creates + σ.clears ≤ σ.noneObs + σ.flagObs + σ.cbObs ∧ σ.noneObs ≤ 1 + σ.failed ∧
+    (σ.creates + σ.clears ≤ σ.noneObs + σ.flagObs + σ.cbObs ∧ σ.noneObs ≤ 1 + σ.failed + σ.panicked ∧
       σ.flagObs ≤ σ.sets.length + σ.failed) ∧
     -- a request that arrives while the creator runs keeps the flag up until the next acquire
     (∀ c, σ.cur = some c → (c.pc = .created ∨ (c.pc = .holding ∧ c.built = true) ∨
         (∃ ops, c.pc = .creating ops) ∨ (∃ s ops, c.pc = .innerSet s ops)) →
       ∀ s ∈ σ.sets, c.buildStart ≤ s → σ.flag = true) ∧
-    (σ.cur = none → ∀ s ∈ σ.sets, σ.flag = true ∨ ∀ e, σ.env = some e → s < e.freshAt)
+    (σ.cur = none → σ.poisoned = false →
+      ∀ s ∈ σ.sets, σ.flag = true ∨ ∀ e, σ.env = some e → s < e.freshAt) ∧
+    -- a creator panic poisons the mutex: no guard is ever handed out afterwards
+    (∀ p, σ.panicAt = some p → ∀ a ∈ σ.acqLog, a.checkedAt < p)
+
+/-- while somebody is inside `acquire_env` the mutex is not poisoned -/
+theorem not_poisoned_of_cur {σ : State} (h : Reachable σ) {c : Active} (hc : σ.cur = some c) :
+    σ.poisoned = false := by
+  have hi := inv_of_reachable h
+  cases hq : σ.poisoned with
+  | false => rfl
+  | true =>
+    have h0 := hi.pois2 hq
+    cases hpa : σ.panicAt with
+    | none => exact absurd hpa h0
+    | some p => have := (hi.pois p hpa).2.1; rw [hc] at this; cases this
 
 /-- **Every flag set that precedes an acquire's reload check is served by that acquire**: the
     environment it hands out was built (creator started) or cleared after the set. -/
@@ -115,7 +130,7 @@ theorem pendingFirst_le_one (σ : State) : pendingFirst σ ≤ 1 := by
     empty at most once plus once per failed creator call; the flag is read as true at most once
     per request (plus once per failed creator call, which re-arms it). -/
 theorem no_spurious_create {σ : State} (h : Reachable σ) :
-    σ.creates + σ.clears ≤ σ.noneObs + σ.flagObs + σ.cbObs ∧ σ.noneObs ≤ 1 + σ.failed ∧
+    σ.creates + σ.clears ≤ σ.noneObs + σ.flagObs + σ.cbObs ∧ σ.noneObs ≤ 1 + σ.failed + σ.panicked ∧
     σ.flagObs ≤ σ.sets.length + σ.failed := by
   have hi := inv_of_reachable h
   refine ⟨by have := hi.cntRebuild; omega, ?_, by have := hi.cntFlag; omega⟩
@@ -127,12 +142,12 @@ theorem no_spurious_create {σ : State} (h : Reachable σ) :
 
 /-- in particular: creator calls ≤ 1 + (times the flag was observed true) + (callback answers)
     as long as the creator does not fail, and ≤ 1 + (number of requests) without a callback -/
-theorem creates_le {σ : State} (h : Reachable σ) (hf : σ.failed = 0) :
+theorem creates_le {σ : State} (h : Reachable σ) (hf : σ.failed = 0) (hp : σ.panicked = 0) :
     σ.creates ≤ 1 + σ.flagObs + σ.cbObs ∧ σ.creates + σ.clears ≤ 1 + σ.sets.length + σ.cbObs := by
   have := no_spurious_create h
   omega
 
-example : ∃ σ, Reachable σ ∧ σ.failed = 0 ∧ σ.creates = 2 ∧ σ.flagObs = 1 ∧ σ.acqLog.length = 3 :=
+example : ∃ σ, Reachable σ ∧ σ.failed = 0 ∧ σ.panicked = 0 ∧ σ.creates = 2 ∧ σ.flagObs = 1 ∧ σ.acqLog.length = 3 :=
   ⟨run (init [.acqIdle {}, .reqIdle, .acqIdle {}, .acqIdle {}])
       [0, 0, 0, 0, 0, 0, 0, 0, 1, 1, 2, 2, 2, 2, 2, 2, 2, 2, 3, 3, 3, 3],
    reachable_run (.init _ (by decide)) _, by decide⟩
@@ -146,7 +161,7 @@ theorem flag_kept_during_build {σ : State} (h : Reachable σ) {c : Active} (hc 
     ∀ s ∈ σ.sets, c.buildStart ≤ s → σ.flag = true := by
   intro s hs hle
   have hi := inv_of_reachable h
-  have h1 := hi.served s hs
+  have h1 := hi.served (not_poisoned_of_cur h hc) s hs
   have h2 := hi.built
   rcases h1 with h1 | h1
   · exact h1
@@ -164,10 +179,11 @@ theorem flag_kept_during_build {σ : State} (h : Reachable σ) {c : Active} (hc 
 
 /-- when nobody is inside `acquire_env`, every request is either still pending (flag up) or
     served by the cached environment -/
-theorem unserved_request_is_pending {σ : State} (h : Reachable σ) (hc : σ.cur = none) :
+theorem unserved_request_is_pending {σ : State} (h : Reachable σ) (hc : σ.cur = none)
+    (hp : σ.poisoned = false) :
     ∀ s ∈ σ.sets, σ.flag = true ∨ ∀ e, σ.env = some e → s < e.freshAt := by
   intro s hs
-  have := (inv_of_reachable h).served s hs
+  have := (inv_of_reachable h).served hp s hs
   simpa only [Served, hc, EnvFresh] using this
 
 /-- **… and the NEXT acquire rebuilds**: if acquire `a0` ran the creator (started at `b`) and a
@@ -211,7 +227,7 @@ theorem holder_never_stuck {σ : State} (h : Reachable σ) {c : Active} (hc : σ
 theorem failure_rearms {σ : State} (h : Reachable σ) {c : Active} (hc : σ.cur = some c)
     (hp : c.pc = .remarked) (hne : σ.sets ≠ []) : σ.flag = true := by
   obtain ⟨s, hs⟩ := List.exists_mem_of_ne_nil _ hne
-  have := (inv_of_reachable h).served s hs
+  have := (inv_of_reachable h).served (not_poisoned_of_cur h hc) s hs
   simpa [Served, hc, hp] using this
 
 /-- non-vacuity for the combination "rebuild triggered by the freshness callback (flag down) ×
@@ -263,11 +279,12 @@ theorem clear_keeps_identity {σ σ' : State} {c : Active} (hc : c.pc = .toClear
 /-- **full reload makes a new object**: the environment stored by a successful creator call has a
     generation that no guard handed out so far has seen -/
 theorem create_is_new {σ σ' : State} (h : Reachable σ) {c : Active} (hcur : σ.cur = some c)
-    (hc : c.pc = .creating []) (hf : c.cfg.fails = false) (hs : stepActive σ c = some σ') :
+    (hc : c.pc = .creating []) (hf : c.cfg.fails = false) (hnp : c.cfg.panics = false)
+    (hs : stepActive σ c = some σ') :
     ∃ e', σ'.env = some e' ∧ e'.gen = σ.creates ∧ ∀ a ∈ σ.acqLog, a.env.gen < e'.gen := by
   have hi := genInv_of_reachable h
   unfold stepActive at hs
-  simp only [hc, hf] at hs
+  simp [hc, hf, hnp] at hs
   cases hs
   refine ⟨_, rfl, rfl, ?_⟩
   intro a ha
@@ -293,27 +310,29 @@ example : ∃ σ, Reachable σ ∧ ∃ a1 ∈ σ.acqLog, ∃ a2 ∈ σ.acqLog, a
   * `request_reload`: set (`lockHandle`, `flag=true`) · ret (`lockHandle`, `callOnCb`).
   * the fs-watcher closure in `with_fs_watcher`: the same four tokens after its `upgrade`.
   * `set_fast_reload` / `set_callback`: one critical section each.
-  * every entry point starts with `upgrade`: on a dead notifier it does nothing. -/
+  * every entry point starts with `upgrade`: on a dead notifier it does nothing.
+  * every `lock()` result is consumed by `.unwrap()`: a poisoned mutex panics (model: the lock step
+    of `acquire_env` on a poisoned `cached_env` ends the acquire with a panic). -/
 def assumedAccesses : List (String × List String) := [
   ("notifier", ["call:weak"]),
-  ("acquire_env", ["lockCached", "readEnv", "call:should_reload", "call:prepare_and_mark_reload", "try",
+  ("acquire_env", ["lockCached.unwrap", "readEnv", "call:should_reload", "call:prepare_and_mark_reload", "try",
     "readEnv", "call:fast_reload", "creator", "env=new", "call:keep_reload_pending", "returnErr",
     "derefEnv", "clear", "handout"]),
   ("deref", ["derefEnv"]),
-  ("request_reload", ["upgrade", "lockHandle", "flag=true", "lockHandle", "callOnCb"]),
-  ("set_fast_reload", ["upgrade", "lockHandle", "fast=yes"]),
-  ("set_callback", ["upgrade", "lockHandle", "setCb"]),
-  ("set_on_should_reload_callback", ["upgrade", "lockHandle", "setOnCb"]),
+  ("request_reload", ["upgrade", "lockHandle.unwrap", "flag=true", "lockHandle.unwrap", "callOnCb"]),
+  ("set_fast_reload", ["upgrade", "lockHandle.unwrap", "fast=yes"]),
+  ("set_callback", ["upgrade", "lockHandle.unwrap", "setCb"]),
+  ("set_on_should_reload_callback", ["upgrade", "lockHandle.unwrap", "setOnCb"]),
   ("watch_path", ["call:with_fs_watcher"]),
   ("unwatch_path", ["call:with_fs_watcher"]),
-  ("persistent_watch", ["upgrade", "lockHandle"]),
+  ("persistent_watch", ["upgrade", "lockHandle.unwrap"]),
   ("is_dead", ["upgrade"]),
   ("handle", ["upgrade"]),
-  ("fast_reload", ["upgrade", "lockHandle", "readFast"]),
-  ("should_reload", ["upgrade", "lockHandle", "readFlag", "pollCb", "callOnCb"]),
-  ("with_fs_watcher", ["upgrade", "lockHandle", "upgrade", "lockHandle", "flag=true", "lockHandle", "callOnCb"]),
-  ("prepare_and_mark_reload", ["upgrade", "lockHandle", "readFast", "lockHandle", "flag=false"]),
-  ("keep_reload_pending", ["upgrade", "lockHandle", "flag=true"]),
+  ("fast_reload", ["upgrade", "lockHandle.unwrap", "readFast"]),
+  ("should_reload", ["upgrade", "lockHandle.unwrap", "readFlag", "pollCb", "callOnCb"]),
+  ("with_fs_watcher", ["upgrade", "lockHandle.unwrap", "upgrade", "lockHandle.unwrap", "flag=true", "lockHandle.unwrap", "callOnCb"]),
+  ("prepare_and_mark_reload", ["upgrade", "lockHandle.unwrap", "readFast", "lockHandle.unwrap", "flag=false"]),
+  ("keep_reload_pending", ["upgrade", "lockHandle.unwrap", "flag=true"]),
   ("weak", ["upgrade"])]
 
 /-- **the source performs exactly the shared accesses the model assumes, in that order** -/
@@ -325,11 +344,55 @@ theorem fs_callback_is_request :
     ((MJ.Gen.reloaderAccesses.lookup "with_fs_watcher").getD []).drop 2 =
       (MJ.Gen.reloaderAccesses.lookup "request_reload").getD ["?"] := by decide
 
+/-! ## a PANICKING creator (third outcome besides Ok / Err) -/
+
+/-- **no guard is handed out after a creator panic**: the unwinding skips the arm that re-arms the
+    flag and leaves the old environment cached, but it also poisons the `cached_env` mutex, and
+    `acquire_env` `unwrap()`s the lock result — every guard in the log had its reload check before
+    the panic. -/
+theorem panic_never_serves_stale {σ : State} (h : Reachable σ) :
+    ∀ p, σ.panicAt = some p → ∀ a ∈ σ.acqLog, a.checkedAt < p :=
+  fun p hp => ((inv_of_reachable h).pois p hp).2.2.2
+
+/-- step form: once poisoned, an acquire can only panic; nothing is handed out, rebuilt or cleared -/
+theorem poisoned_acquire_panics {σ σ' : State} (h : Reachable σ) (hp : σ.poisoned = true)
+    {i : Nat} (hs : step σ i = some σ') :
+    σ'.acqLog = σ.acqLog ∧ σ'.env = σ.env ∧ σ'.creates = σ.creates ∧ σ'.poisoned = true ∧
+      σ'.cur = none := by
+  have hi := inv_of_reachable h
+  have hn := hi.norec
+  obtain ⟨p, hpa⟩ := Option.ne_none_iff_exists'.mp (hi.pois2 hp)
+  have hc := (hi.pois p hpa).2.1
+  unfold step at hs
+  split at hs
+  · simp only [hc, hp, hn] at hs
+    cases hs; simp [hp, hc]
+  · simp [hc] at hs
+  all_goals (first | (cases hs; simp [hp, hc]) | cases hs)
+
+/-- non-vacuity: request, rebuild whose creator panics, two more acquires: both panic on the lock -/
+example : ∃ σ, Reachable σ ∧ σ.panicAt = some 15 ∧ σ.lockPanics = 2 ∧ σ.flag = false ∧
+    σ.acqLog.length = 1 ∧ ∃ s ∈ σ.sets, ∃ e, σ.env = some e ∧ e.freshAt < s :=
+  ⟨run (init [.acqIdle {}, .reqIdle, .acqIdle { panics := true }, .acqIdle {}, .acqIdle {}])
+      [0, 0, 0, 0, 0, 0, 0, 0, 1, 1, 2, 2, 2, 2, 2, 2, 3, 4],
+   reachable_run (.init _ (by decide)) _, by decide⟩
+
+/-- **what the poison protects**: in the model VARIANT whose `lock()` recovers from the poison
+    (`recoverPoison := true`, not reachable from `init`), the same schedule hands out the stale
+    environment to a later acquire although the request had returned before it locked —
+    `no_lost_request`'s statement is false there. -/
+example :
+    let σ := run { init [.acqIdle {}, .reqIdle, .acqIdle { panics := true }, .acqIdle {}] with
+                   recoverPoison := true }
+      [0, 0, 0, 0, 0, 0, 0, 0, 1, 1, 2, 2, 2, 2, 2, 2, 3, 3, 3, 3]
+    ∃ r ∈ σ.reqLog, ∃ a ∈ σ.acqLog, r.retAt < a.lockedAt ∧ ¬ r.setAt < a.env.freshAt := by
+  decide
+
 theorem C20_holds : C20_full := by
   intro σ h
   refine ⟨fun r hr a ha hlt => (no_lost_request h r hr a ha hlt).1, request_before_check h, ?_,
     no_spurious_create h, fun c hc hp => flag_kept_during_build h hc hp,
-    unserved_request_is_pending h⟩
+    unserved_request_is_pending h, panic_never_serves_stale h⟩
   intro c hc hp
   exact guard_excludes_replace h hc hp
 
